@@ -4,16 +4,23 @@ import OFCore.Drv.Util
 Line protocol handler for the `enm` domain (property C15). One self-contained case per line:
 
 ```
-enm enc <names> <container> <items>   -> OK <owner> <idx> <dec> <str> <re> <reraw> | ERR
-enm dec <names> <indices>             -> <dec> <str>
+enm enc <names> <container> <items>               -> OK <owner> <idx> <dec> <str> <re> <reraw> | ERR
+enm sel <names> <container> <items> <how> <positions> -> OK <idx> <dec> <str> | ERR
+enm dec <names> <indices> [<dtype/shape>]          -> <dec> <str>
 ```
+
+`sel`: encode, then select `<positions>` (comma separated, non-negative) from the result through
+the ndarray API (`<how>` names the numpy spelling — slice, mask, fancy, take, rev, copy, view,
+repeat, astype — and only matters to the implementation adapter), then decode the selection.
 
 * `<names>`: the member names in declaration order, comma separated; a name is the dot-joined
   hex code points of its characters (`61.62` = "ab"); `-` = no name.
-* `<container>`: `seq[.list|.tuple]`, `int[.<dtype>]`, `str[.arr]`, `obj[.arr]`,
-  `oth[.<dtype>]`, `enc.own`, `enc.foreign` (text after the first `.` only matters to the
-  implementation adapter).
+* `<container>`: `seq[.list|.tuple|.deque|.array]`, `int[.<dtype>[.strided]]`,
+  `str[.arr|.wide|.strided]`, `obj[.arr]`, `oth[.<dtype>]`, `zd[.<dtype>]` (0-dimensional array,
+  exactly one item), `enc.own[.<dtype>]`, `enc.foreign` (apart from own/foreign the text after
+  the first `.` only matters to the implementation adapter).
 * `<items>`: comma separated, `-` = empty. `i<int>[.b]` an integer, `s<name>` a string,
+  `S<name>` a `numpy.str_` scalar (a `str`),
   `m<k>` the k-th member of the enumeration, `g<k>` the k-th member of a *different*
   enumeration declared under the same class name (the class test `cls == item.__class__`
   compares classes by name, so it is an instance of "the class" carrying index k),
@@ -51,6 +58,7 @@ def enmElem? (tok : String) : Option Elem :=
   match tok.toList with
   | 'i' :: r => ((enmHead (String.ofList r)).toInt?).map Elem.int
   | 's' :: r => (enmName? (String.ofList r)).map Elem.str
+  | 'S' :: r => (enmName? (String.ofList r)).map Elem.str
   | 'm' :: r => ((String.ofList r).toNat?).map (Elem.member 0)
   | 'g' :: r => ((String.ofList r).toNat?).map (Elem.member 0)
   | 'f' :: r => ((String.ofList r).toNat?).map (Elem.member 1)
@@ -65,9 +73,12 @@ def enmInput? (container : String) (items : List String) : Option Input := do
   | "int" => if xs.all Elem.isInt then pure (.intArr (xs.map Elem.intVal)) else none
   | "str" => if xs.all Elem.isStr then pure (.strArr (xs.map Elem.strVal)) else none
   | "oth" => if xs.all (· == Elem.other) then pure (.otherArr xs.length) else none
+  | "zd" => match xs with
+    | [x] => pure (.scalarArr x)
+    | _ => none
   | "enc" =>
     if xs.all (fun x => x.isInt && decide (0 ≤ x.intVal)) then
-      let owner := if container = "enc.own" then 0 else 1
+      let owner := if (container.splitOn ".").getD 1 "" = "own" then 0 else 1
       pure (.encoded ⟨owner, xs.map (fun x => x.intVal.toNat)⟩)
     else none
   | _ => none
@@ -103,7 +114,20 @@ def handleEnm (args : List String) : String :=
         let reraw := enmShowIdx (encode e (.intArr (a.idx.map Int.ofNat)))
         s!"OK {if own then "own" else "foreign"} {enmShowList (a.idx.map toString)} {dec} {str} {re} {reraw}"
     | _, _ => "BAD"
-  | ["dec", names, idx] =>
+  | ["sel", names, container, items, _how, positions] =>
+    match (enmList names).mapM enmName?, enmInput? container (enmList items),
+        (enmList positions).mapM String.toNat? with
+    | some ns, some x, some ps =>
+      let e : Enumeration := ⟨0, ns⟩
+      match encode e x with
+      | .error _ => "ERR"
+      | .ok a =>
+        match a.take ps with
+        | .error _ => "ERR"
+        | .ok b => s!"OK {enmShowList (b.idx.map toString)} {enmShowDec e b} {enmShowStr e b}"
+    | _, _, _ => "BAD"
+  | "dec" :: names :: idx :: rest =>
+    if rest.length > 1 then "BAD" else
     match (enmList names).mapM enmName?, (enmList idx).mapM String.toNat? with
     | some ns, some is =>
       let e : Enumeration := ⟨0, ns⟩
